@@ -12,7 +12,6 @@ import (
 	"sort"
 	"strconv"
 	"strings"
-	"unicode"
 
 	"golang.org/x/tools/go/ssa"
 )
@@ -368,7 +367,33 @@ func init() {
 		if allConcrete(args) {
 			return strings.EqualFold(args[0].(string), args[1].(string))
 		}
-		panic(engineError{"strings.EqualFold on symbolic string"})
+		// one side concrete (ASCII): a regular-language membership
+		for k := 0; k < 2; k++ {
+			c, ok := args[k].(string)
+			if !ok {
+				continue
+			}
+			var parts []string
+			for i := 0; i < len(c); i++ {
+				lo, up := strings.ToLower(c[i:i+1]), strings.ToUpper(c[i:i+1])
+				if c[i] >= 0x80 {
+					panic(engineError{"strings.EqualFold with a non-ASCII constant"})
+				}
+				if lo != up {
+					parts = append(parts, "(re.union (str.to_re "+smtString(lo)+") (str.to_re "+smtString(up)+"))")
+				} else {
+					parts = append(parts, "(str.to_re "+smtString(lo)+")")
+				}
+			}
+			re := `(str.to_re "")`
+			if len(parts) == 1 {
+				re = parts[0]
+			} else if len(parts) > 1 {
+				re = "(re.++ " + strings.Join(parts, " ") + ")"
+			}
+			return boolVal(InRe(mustTerm(args[1-k]), re))
+		}
+		panic(engineError{"strings.EqualFold on two symbolic strings"})
 	})
 	reg("strings.Count", func(fr *frame, args []value) value {
 		if allConcrete(args) {
@@ -607,26 +632,6 @@ func init() {
 		}
 		panic(engineError{"strconv.ParseBool symbolic"})
 	})
-
-	// ---------------- unicode (tables are not initialised: inits of the stdlib are not run)
-	for name, f := range map[string]func(rune) bool{
-		"unicode.IsUpper": unicode.IsUpper, "unicode.IsLower": unicode.IsLower, "unicode.IsLetter": unicode.IsLetter,
-		"unicode.IsDigit": unicode.IsDigit, "unicode.IsSpace": unicode.IsSpace, "unicode.IsPunct": unicode.IsPunct,
-		"unicode.IsPrint": unicode.IsPrint, "unicode.IsControl": unicode.IsControl, "unicode.IsNumber": unicode.IsNumber,
-		"unicode.IsGraphic": unicode.IsGraphic, "unicode.IsSymbol": unicode.IsSymbol,
-	} {
-		f := f
-		name := name
-		reg(name, func(fr *frame, args []value) value {
-			r, ok := args[0].(int32)
-			if !ok {
-				panic(engineError{name + " on symbolic rune"})
-			}
-			return f(r)
-		})
-	}
-	reg("unicode.ToLower", func(fr *frame, args []value) value { return unicode.ToLower(args[0].(int32)) })
-	reg("unicode.ToUpper", func(fr *frame, args []value) value { return unicode.ToUpper(args[0].(int32)) })
 
 	// ---------------- fmt / log / os: event stubs
 	reg("fmt.Sprintf", func(fr *frame, args []value) value {
